@@ -159,7 +159,9 @@ def run(tier, seed):
     t0 = time.time()
     specs = specgen.f_st(tier, seed)
     if tier == "quick":
-        specs = specs[seed % 2::2]
+        keep = [s for s in specs if "/slip" in s["name"] or "/space=/" in s["name"] or "conv-part" in s["name"]]
+        rest = [s for s in specs if s not in keep]
+        specs = keep + rest[seed % 2::2]
     res = runner.pmap(work, specs)
     ok = [r for r in res if r["status"] == "ok"]
     cov = {
